@@ -656,6 +656,10 @@ class err_gs(err_node):
         visitor.visit_gs_pre(self)
         for child in self.children:
             child.accept(visitor)
+        # errors can still be hung on the group (or its sets) after its
+        # trailer was processed: an accepted group has none
+        if self.ack_code == 'A' and self._get_ack_code() == 'R':
+            self.ack_code = 'R'
         visitor.visit_gs_post(self)
 
     def add_error(self, err_cde, err_str):
@@ -798,6 +802,10 @@ class err_st(err_node):
         """
         Params:     visitor - ref to visitor class
         """
+        # errors can still be hung on the set after its trailer was
+        # processed: an accepted set has none
+        if self.ack_code == 'A' and self.err_count() > 0:
+            self.ack_code = 'R'
         visitor.visit_st_pre(self)
         for child in self.children:
             child.accept(visitor)
